@@ -15,6 +15,9 @@ import (
 // overlayFromPatch applies a unified diff to copies of the files it touches and
 // returns them as a go/packages overlay (nothing is written to the repository).
 func overlayFromPatch(patch string) (map[string][]byte, error) {
+	if abs, err := filepath.Abs(patch); err == nil {
+		patch = abs
+	}
 	b, err := os.ReadFile(patch)
 	if err != nil {
 		return nil, err
@@ -103,7 +106,7 @@ func runPatch(id, p string) (int, []string, error) {
 // violation. Usage: gvc selftest [-j N] [-mutants|-seeds] [property...]
 func Selftest(args []string) int {
 	jobs := 4
-	kinds := map[string]bool{"mutant": true, "seeded": true}
+	kinds := map[string]bool{"mutant": true, "seeded": true, "refactor": true}
 	want := map[string]bool{}
 	for i := 0; i < len(args); i++ {
 		switch a := args[i]; {
@@ -127,9 +130,11 @@ func Selftest(args []string) int {
 			fmt.Sscan(args[i+1], &jobs)
 			i++
 		case a == "-mutants":
-			kinds["seeded"] = false
+			kinds["seeded"], kinds["refactor"] = false, false
 		case a == "-seeds":
-			kinds["mutant"] = false
+			kinds["mutant"], kinds["refactor"] = false, false
+		case a == "-refactors":
+			kinds["mutant"], kinds["seeded"] = false, false
 		default:
 			want[a] = true
 		}
@@ -162,6 +167,20 @@ func Selftest(args []string) int {
 			entries = append(entries, corpusEntry{id, p, "seeded"})
 		}
 	}
+	if kinds["refactor"] {
+		// behaviour-preserving rewrites: the checks listed in the props file must stay silent
+		dirs, _ := filepath.Glob(filepath.Join(VerifDir, "refactors", "*", "patch.diff"))
+		sort.Strings(dirs)
+		for _, p := range dirs {
+			pb, _ := os.ReadFile(filepath.Join(filepath.Dir(p), "props"))
+			for _, id := range strings.Fields(string(pb)) {
+				if _, ok := plans[id]; !ok || (len(want) > 0 && !want[id]) {
+					continue
+				}
+				entries = append(entries, corpusEntry{id, p, "refactor"})
+			}
+		}
+	}
 	results := make([]corpusResult, len(entries))
 	self, _ := os.Executable()
 	var wg sync.WaitGroup
@@ -187,13 +206,17 @@ func Selftest(args []string) int {
 				r.Error = fmt.Sprintf("worker failed: %v: %s", err, truncate(string(out), 400))
 			}
 			name := filepath.Base(e.Patch)
-			if e.Kind == "seeded" {
-				name = "seeded/" + filepath.Base(filepath.Dir(e.Patch))
+			if e.Kind != "mutant" {
+				name = e.Kind + "/" + filepath.Base(filepath.Dir(e.Patch))
 			}
 			mu.Lock()
 			switch {
 			case r.Error != "":
 				fmt.Printf("%-6s %-48s PATCH-ERROR %s\n", e.ID, name, r.Error)
+			case e.Kind == "refactor" && r.Killed:
+				fmt.Printf("%-6s %-48s FALSE ALARM %s\n", e.ID, name, strings.Join(firstN(r.KilledBy, 3), " | "))
+			case e.Kind == "refactor":
+				fmt.Printf("%-6s %-48s silent (as required)\n", e.ID, name)
 			case r.Killed:
 				fmt.Printf("%-6s %-48s killed by %s\n", e.ID, name, strings.Join(firstN(r.KilledBy, 2), " | "))
 			default:
@@ -207,24 +230,29 @@ func Selftest(args []string) int {
 	killed := 0
 	var survivors []string
 	for _, r := range results {
-		if r.Killed && r.Error == "" {
+		ok := r.Killed && r.Error == ""
+		if r.Kind == "refactor" {
+			ok = !r.Killed && r.Error == ""
+		}
+		if ok {
 			killed++
 		} else {
-			survivors = append(survivors, r.Patch)
+			survivors = append(survivors, r.Property+" "+r.Patch)
 		}
 	}
 	for i := range results {
 		results[i].Patch = strings.TrimPrefix(results[i].Patch, VerifDir+"/")
 	}
 	rep := "report-last.json"
-	if len(want) == 0 && kinds["mutant"] && kinds["seeded"] {
+	if len(want) == 0 && kinds["mutant"] && kinds["seeded"] && kinds["refactor"] {
 		rep = "report.json"
 	}
 	writeJSON(filepath.Join(VerifDir, "selftest", rep), map[string]interface{}{"total": len(results), "killed": killed, "results": results})
-	fmt.Printf("selftest: %d/%d killed (report: selftest/%s)\n", killed, len(results), rep)
+	fmt.Printf("selftest: %d/%d as required - mutants and seeded changes reported, refactorings silent (report: selftest/%s)\n", killed, len(results), rep)
 	for _, s := range survivors {
-		fmt.Println("  not killed:", s)
+		fmt.Println("  NOT as required:", s)
 	}
+	os.RemoveAll(filepath.Join(os.TempDir(), "gvc-selftest-replay"))
 	if len(survivors) > 0 {
 		return 1
 	}
